@@ -51,6 +51,31 @@ def inst_case(cid: str, inst) -> dict:
     return rec
 
 
+def packlib_case(cid: str, inst, rng: random.Random, workdir) -> dict:
+    """The instance as a 2DPackLib file (items in random order, demand 1 written or left out) -> from_2dpacklib."""
+    from moptipyapps.binpacking2d.instance import Instance
+    items = [[int(inst[i, 0]), int(inst[i, 1]), int(inst[i, 2])] for i in range(inst.n_different_items)]
+    order = items[:]
+    rng.shuffle(order)
+    lines = [str(len(order)), f"{inst.bin_width} {inst.bin_height}"]
+    for k, (w, h, c) in enumerate(order, 1):
+        lines.append(f"{k} {w} {h}" if (c == 1 and rng.random() < 0.5) else f"{k} {w} {h} {c}")
+    name = f"pl{cid.split('-')[-1]}"
+    path = workdir / f"{name.upper() if rng.random() < 0.3 else name}.ins2d"
+    path.write_text("\n".join(lines) + rng.choice(["", "\n"]))
+    ref = Instance(name, inst.bin_width, inst.bin_height, sorted(items))
+    rec = {"id": cid, "kind": "packlib", "text": lines, "W": small(ref.bin_width), "H": small(ref.bin_height),
+           "items": inst_proj(ref)["items"], "orig": inst_proj(ref), "back": inst_proj(ref), "ok": 1, "name_ok": 1}
+    try:
+        back = Instance.from_2dpacklib(str(path))
+        rec["back"] = inst_proj(back)
+        rec["name_ok"] = 1 if back.name == name else 0
+    except (ValueError, IndexError, TypeError) as ex:
+        rec["ok"] = 0
+        rec["error"] = f"{type(ex).__name__}: {str(ex)[:120]}"
+    return rec
+
+
 def rows_case(cid: str, what: str, orig: list, text: str, parse) -> dict:
     first = text.lstrip().split("\n\n")[0] if what != "packing" else text
     try:
@@ -126,6 +151,7 @@ def run(prop: str, tier: str, seed: int) -> int:
                   "INVARIANT InstInverts\nINVARIANT MatInverts\n", workers=8, timeout=600)
     rep.add_mc("MC_Text: grammars invert on all small instances / matrices", res)
     cases = []
+    pl_dir = tlc.work_dir("packlib")
     # ---- instances
     n_i = {"quick": 300, "thorough": 3000}[tier]
     for k in range(n_i):
@@ -153,6 +179,9 @@ def run(prop: str, tier: str, seed: int) -> int:
             continue      # area beyond TLC's native integers: such instances are exercised by C01/C02 (BigNat)
         cases.append(inst_case(f"inst-{k}", inst))
         rep.family("instances", 1, 1)
+        if k % 3 == 0:
+            cases.append(packlib_case(f"packlib-{k}", inst, rng, pl_dir))
+            rep.family("2dpacklib-files", 1, 1)
         # packing text
         if inst.n_items <= 40 and rng.random() < 0.5:
             from moptipyapps.binpacking2d.packing_space import PackingSpace
@@ -257,6 +286,7 @@ def run(prop: str, tier: str, seed: int) -> int:
             rep.family("csv-tables", 4, 4)
     finally:
         shutil.rmtree(work, ignore_errors=True)
+        shutil.rmtree(pl_dir, ignore_errors=True)
     vs = core.validate("text/Trace_Text", cases, shards=14)
     core.classify(rep, vs, {c["id"]: c for c in cases}, family="recorded")
     rep.traces += len(cases)
